@@ -63,7 +63,7 @@ def order_key(p: dict[str, Any]) -> tuple[int, str]:
 
 
 def reference(props: list[dict[str, Any]], sl: float, su: float, el: float, eu: float,
-              stop_at: tuple[int, str] | None = None) -> dict[str, Any] | None:
+              stop_at: tuple[int, str] | None = None, ignore_bounds_inside_zone: bool = False) -> dict[str, Any] | None:
     """Independent statement-level model of C04.
 
     Returns None when the set is not conflict-free; otherwise
@@ -103,8 +103,11 @@ def reference(props: list[dict[str, Any]], sl: float, su: float, el: float, eu: 
                 cands = {x}
                 dontcare = False
         blo, bhi = p.get("lo"), p.get("hi")
-        # a proposal whose own bounds lie strictly inside the zone is outside the conflict-free domain
+        # a proposal whose own bounds lie strictly inside the zone cannot be honoured at all: the manager ignores those
+        # bounds (in the target and in what it reports alike); the proposal's preference still counts
         if zone and blo is not None and bhi is not None and el < blo < eu and el < bhi < eu:
+            if ignore_bounds_inside_zone:
+                continue
             return None
         nlo = lo if blo is None else max(lo, blo)
         nhi = hi if bhi is None else min(hi, bhi)
